@@ -197,6 +197,7 @@ with orv := ONone | OSome (e : rv).
 Inductive rhs :=
 | EPure (e : rv)
 | EAppend (ek : nat) (zero : val) (s : rv) (es : rvs)   (* append(s, es...); ek = element kind for the growth policy *)
+| EAppendSlice (ek : nat) (zero : val) (s t : rv)        (* append(s, t...) *)
 | ESliceLit (es : rvs)                                   (* []T{...} *)
 | ENew (e : rv)                                          (* &T{...}, new(T) *)
 | EMake (zero : val) (n c : rv)                          (* make([]T, n, c) *)
@@ -355,6 +356,13 @@ Definition g_rhs (grow : growth) (h : heap) (e : env) (r : rhs) : option (val * 
   match r with
   | EPure x => v <- g_rv h e x ;; Some (v, h)
   | EAppend ek zero s es => sv <- g_rv h e s ;; vs <- g_rvs h e es ;; append_vals grow h ek zero sv vs
+  | EAppendSlice ek zero s t =>
+      (* the elements of t are read before anything is written (overlapping operands behave like memmove) *)
+      sv <- g_rv h e s ;; tv <- g_rv h e t ;;
+      w <- slice_view tv ;;
+      let '(tb, toff, tlen, _) := w in
+      vs <- read_elems h tb toff tlen ;;
+      append_vals grow h ek zero sv vs
   | ESliceLit es =>
       vs <- g_rvs h e es ;;
       let '(l, h') := alloc h (CVal (VArr vs)) in Some (VSlice (l, []) 0 (length vs) (length vs), h')
